@@ -7,12 +7,12 @@ d=$(mktemp -d /tmp/seedcf.XXXXXX)
 rsync -a --exclude .git /repo/ $d/
 cp $m/demo_test.go $d/$demo/zz_demo_test.go
 base=$(cd $d && go test -vet=off -count=1 -run 'TestMutant|Test' ./$demo/ 2>&1 | tail -1)
-basedemo=$(cd $d && go test -vet=off -count=1 ./$demo/ 2>&1 | grep -c "^--- FAIL" )
+basedemo=$(cd $d && go test -vet=off -count=1 -run TestMutant ./$demo/ 2>&1 | grep -c "^--- FAIL" )
 (cd $d && patch -p1 -s < $m/patch.diff) || { echo "PATCH FAILED"; rm -rf $d; exit 1; }
 (cd $d && go build ./... ) || { echo "BUILD FAILED"; rm -rf $d; exit 1; }
 rm $d/$demo/zz_demo_test.go
 existing=$(cd $d && go test -vet=off -count=1 "$@" 2>&1 | grep -E "^(--- FAIL|FAIL|ok)" | grep -v "TestCertificateTransparency\|TestVCS" | grep -c "^--- FAIL")
 cp $m/demo_test.go $d/$demo/zz_demo_test.go
-withdemo=$(cd $d && go test -vet=off -count=1 ./$demo/ 2>&1 | grep -c "^--- FAIL")
+withdemo=$(cd $d && go test -vet=off -count=1 -run TestMutant ./$demo/ 2>&1 | grep -c "^--- FAIL")
 echo "$(basename $m): demo-fails-without-patch=$basedemo existing-fails-with-patch=$existing demo-fails-with-patch=$withdemo"
 rm -rf $d
